@@ -680,9 +680,14 @@ func clauseLabel(cl *Clause, i int) string {
 	return fmt.Sprintf("%d", i+1)
 }
 
+// tagsFor: an untagged clause supports every property the function's own contract mentions
+// (its proofs are what the tagged clauses of the same function rest on), plus the safety property.
 func (fr *Frame) tagsFor(cl *Clause) []string {
 	if len(cl.Tags) > 0 {
 		return cl.Tags
+	}
+	if fr.c.topFrame != nil {
+		return fr.c.topFrame.allTags()
 	}
 	return fr.safetyTags
 }
